@@ -277,8 +277,14 @@ def run_harness(res, exe, args, env_extra=None, timeout=3600):
                       "harness did not finish in %ds" % timeout)
         return None
     if rc != 0:
+        key = ""
+        for line in err.splitlines():
+            if line.startswith(("panic:", "fatal error:", "runtime: goroutine stack exceeds")):
+                key = " (" + line.strip()[:160] + ")"
+                break
         res.violation("impl-violation", "harness-crash:" + os.path.basename(exe),
-                      "exit %d\n%s" % (rc, err[-3000:]),
+                      "the harness process died with exit %d%s while it ran the implementation; last case: %s\n%s" % (
+                          rc, key, next((l for l in reversed(out.splitlines()) if l.startswith("# case")), "?"), err[-3000:]),
                       witness={"stderr": err[-3000:], "last_lines": out.splitlines()[-20:]})
         # still analyse what was printed
     return out
